@@ -21,6 +21,7 @@ REQUIRED = ['runs', 'ended/return', 'ended/value', 'ended/end', 'nodes/if', 'nod
 EXHAUSTIVE = {'quick': True, 'thorough': False}
 BOUNDS = {'quick': 'ASTs <=4 nodes depth<=2, predicate scripts <=4, exhaustive after de-duplication', 'thorough': '+5-node ASTs sampled, 4000 random ASTs depth<=4'}
 STOPVALS = [0, '', False, 7]
+SHARE_CASES = True  # the de-duplicated enumeration is done once by the main process
 
 
 def _scripts(maxp):
